@@ -129,6 +129,12 @@ func (t *tcpTransport) Send(ctx context.Context, e envelope) error {
 		return err
 	}
 
+	// A context that has already ended must not reach the encoder: json.Encoder
+	// keeps the first write error and would return it for every later envelope.
+	if err := ctx.Err(); err != nil {
+		return fmt.Errorf("tcp transport: send: %w", err)
+	}
+
 	t.ctxConn.SetWriteContext(ctx)
 
 	if err := t.encoder.Encode(e); err != nil {
